@@ -128,9 +128,12 @@ class Concat(Expr):
 
     @functools.cached_property
     def _are_co_alinged_or_single_partition(self):
-        return are_co_aligned(*self._frames) or {
-            df.npartitions for df in self._frames
-        } == {1}
+        return are_co_aligned(*self._frames) or (
+            {df.npartitions for df in self._frames} == {1}
+            # single partitions can be concatenated directly only if they cover the
+            # same index range (or nothing is known about it)
+            and len({df.divisions for df in self._frames}) == 1
+        )
 
     def _lower(self):
         dfs = self._frames
